@@ -208,6 +208,7 @@ type Env struct {
 	tagNames []string
 	fresh    int
 	trusted  map[string]bool // names of axioms that are assumptions
+	mapInfo  map[string]mapInfo
 }
 
 func NewEnv() *Env {
@@ -286,10 +287,11 @@ func (e *Env) base() {
 	e.Decl("Iface", "(declare-datatypes ((Iface 0)) (((mk-iface (if-tag Int) (if-val Int)))))")
 	e.DeclFun("base", []Sort{SInt}, SInt)
 	e.DeclFun("rtype", []Sort{SInt}, SInt)
+	e.DeclFun("refkind", []Sort{SInt}, SInt)
 	e.DeclFun("elemref", []Sort{SInt, SInt}, SInt)
 	e.DeclFun("elem_arr", []Sort{SInt}, SInt)
 	e.DeclFun("elem_idx", []Sort{SInt}, SInt)
-	e.Axiom("(forall ((a Int) (i Int)) (! (and (= (elem_arr (elemref a i)) a) (= (elem_idx (elemref a i)) i) (= (base (elemref a i)) (base a)) (not (= (elemref a i) 0))) :pattern ((elemref a i))))")
+	e.Axiom("(forall ((a Int) (i Int)) (! (and (= (elem_arr (elemref a i)) a) (= (elem_idx (elemref a i)) i) (= (base (elemref a i)) (base a)) (= (refkind (elemref a i)) 1) (not (= (elemref a i) 0))) :pattern ((elemref a i))))")
 	e.Axiom("(= (base 0) 0)")
 	e.DeclFun("sidx", []Sort{SSlice, SInt}, SInt)
 	e.Axiom("(forall ((s Slice) (k Int)) (! (= (sidx s k) (elemref (sl-arr s) (+ (sl-off s) k))) :pattern ((sidx s k))))")
